@@ -45,7 +45,8 @@ End Bwd.
 
 Section Bridge.
 Variable F : fieldType.
-Notation fops := (fops F).
+Variables (sq : F -> F) (lt : F -> F -> bool).
+Notation fops := (fops sq lt).
 Implicit Types (l u : tri F) (x : mat F).
 
 Lemma sum_below n (i : 'I_n) (g : nat -> F) :
@@ -119,7 +120,8 @@ End Bridge.
 (* the dense matrix denoted by every kind, at an explicit size n (meant to be qsize A) *)
 Section AllKinds.
 Variable F : fieldType.
-Notation fops := (fops F).
+Variables (sq : F -> F) (lt : F -> F -> bool).
+Notation fops := (fops sq lt).
 Definition den_sl_at n (l : tri F) : 'M[F]_n := denSL n (Pk l) (Qk l) (Ak l).
 Definition den n (A : qsm F) : 'M[F]_n :=
   match A with
